@@ -1,4 +1,5 @@
 import Glom.Lemmas.C07
+import Glom.Lemmas.C03
 import Glom.Model.Frames
 /-
   C03 — Auto-mode restructuring is compositional in its sub-specs.
@@ -144,6 +145,36 @@ theorem c03_determined_by_subspecs (p : Prims) (rec1 rec2 : Rec σ) (t : V) (sc 
     (∀ sub items acc, listLoop rec1 sub sc items acc = listLoop rec2 sub sc items acc) :=
   ⟨dictLoop_congr p t sc h, fun sub => listLoop_congr sub sc h⟩
 
+/-- **Inspect is transparent**: debugging aside, `Inspect(s)` (no callbacks; what it echoes is not
+    part of the result) evaluates `s` once, in its own scope, and yields its value or its exception —
+    it is `Spec(s)`. -/
+theorem c03_inspect_transparent (p : Prims) (rec : Rec σ) (s : Spec) (t : V) (sc : σ) :
+    glomit p rec (.inspect s Option.none Option.none) t sc = glomit p rec (.specW s []) t sc := by
+  apply M.ext; intro st
+  simp only [glomit, callOpt, M.bind_apply, M.pure_apply, M.attempt, List.foldl_nil]
+  rcases rec s t sc st with ⟨st1, r⟩
+  cases r <;> rfl
+
+/-- **Inspect's callbacks**: `breakpoint` is called once, without arguments, before the wrapped spec;
+    when the wrapped spec raises, `post_mortem` is called once and the exception is re-raised (unless
+    `post_mortem` itself raises); when it succeeds `post_mortem` is not called. -/
+theorem c03_inspect_callbacks (p : Prims) (rec : Rec σ) (s : Spec) (bp pm : Option (String × String)) (t : V)
+    (sc : σ) (st st0 st1 : St) (hbp : callOpt p bp st = (st0, .ok ())) :
+    (∀ v c, rec s t sc st0 = (st1, .ok (v, c)) →
+      glomit p rec (.inspect s bp pm) t sc st = (st1, .ok (v, sc))) ∧
+    (∀ e, rec s t sc st0 = (st1, .error e) →
+      glomit p rec (.inspect s bp pm) t sc st =
+        (match callOpt p pm st1 with
+         | (st2, .ok _) => (st2, .error e)
+         | (st2, .error e') => (st2, .error e'))) := by
+  constructor
+  · intro v c h
+    simp only [glomit, M.bind_apply, hbp, M.attempt, h, M.pure_apply]
+  · intro e h
+    simp only [glomit, M.bind_apply, hbp, M.attempt, h]
+    rcases callOpt p pm st1 with ⟨st2, r⟩
+    cases r <;> rfl
+
 /-! ### nested chains: STOP ends the chain it occurs in, and only that one -/
 
 /-- reference for a chain of pure steps: each result feeds the next step, SKIP omits the step,
@@ -216,6 +247,229 @@ theorem c03_nested_chain_loop (rec : Rec σ) (a : Spec) (rest : List Spec) (fs :
   simp only [tupleLoop, M.bind_apply, hc]
   cases hv : chainRef fs t <;> simp_all [isSentinel]
 
+/-! ### evaluators with effects: each sub-spec is evaluated once, left to right
+
+The laws above are relative to a *pure* evaluator of the sub-specs (`PureOn`).  The following ones
+drop that: the sub-specs may log calls (instrumented callables), write `S.globals` / `Vars`, and
+raise.  `EvalOn rec m a s g` says that on sub-spec `s` the evaluator computes the state-threading
+function `g : V → M V` at every scope whose mode is `m` and whose argument flag is `a` (the
+interpreter itself satisfies this for, e.g., a callable in AUTO mode: see the examples); the loops
+of the interpreter are then the accumulator-free references `listRefM` / `dictRefM` / `chainRefM`
+of `Glom/Spec/C03.lean`, which run `g` exactly once per item / entry / step, in order, threading
+the state, and stop at the first exception with the state reached so far. -/
+
+/-- on sub-spec `s` the evaluator computes the effectful function `g`, at every scope with mode `m`
+    and argument flag `a` -/
+def EvalOn (rec : Rec σ) (m : Mode) (a : Bool) (s : Spec) (g : V → M V) : Prop :=
+  ∀ t (sc : σ), mode sc = m → argMode sc = a → (rec s t sc >>= fun r => pure r.1) = g t
+
+theorem evalOn_apply {rec : Rec σ} {m : Mode} {a : Bool} {s : Spec} {g : V → M V} (h : EvalOn rec m a s g)
+    (t : V) (sc : σ) (hm : mode sc = m) (ha : argMode sc = a) (st : St) :
+    g t st = (match rec s t sc st with
+      | (st', .ok r) => (st', .ok r.1)
+      | (st', .error e) => (st', .error e)) := by
+  rw [← h t sc hm ha, M.bind_apply]
+  rcases rec s t sc st with ⟨st', r⟩
+  cases r <;> rfl
+
+/-- a pure evaluator is a special case (in every mode) -/
+theorem c03_pureOn_evalOn (rec : Rec σ) (s : Spec) (f : V → V) (h : PureOn rec s f) (m : Mode) (a : Bool) :
+    EvalOn rec m a s (fun t => pure (f t)) := by
+  intro t sc _ _
+  apply M.ext; intro st
+  obtain ⟨c, hc⟩ := h t sc st
+  rw [M.bind_apply, hc]
+
+/-- **A list spec over an effectful sub-spec**: the sub-spec runs once per item, in order, the state
+    (call log, ScopeVars) threaded through; SKIP omits the item, STOP ends the list — nothing after
+    it runs —, an exception ends the evaluation with the state reached so far. -/
+theorem c03_list_stateful (rec : Rec σ) (sub : Spec) (g : V → M V) (sc : σ)
+    (h : EvalOn rec (mode sc) (argMode sc) sub g) :
+    ∀ (items acc : List V),
+      listLoop rec sub sc items acc = (do let r ← listRefM g items; pure (acc ++ r)) := by
+  intro items
+  induction items with
+  | nil => intro acc; apply M.ext; intro st; simp [listLoop, listRefM, M.bind_apply, M.pure_apply]
+  | cons x xs ih =>
+    intro acc
+    apply M.ext; intro st
+    have hg := evalOn_apply h x sc rfl rfl st
+    simp only [listLoop, listRefM, M.bind_apply]
+    rcases hr : rec sub x sc st with ⟨st1, r1⟩
+    rw [hr] at hg
+    cases r1 with
+    | error e => simp only [hg]
+    | ok vc =>
+      obtain ⟨v, c⟩ := vc
+      simp only [hg]
+      cases v <;> simp [ih, M.bind_apply, M.pure_apply] <;>
+        (rcases listRefM g xs st1 with ⟨st2, r2⟩; cases r2 <;> simp)
+
+/-- **A dict spec over effectful value specs** (literal keys): every value spec runs once, in the
+    order of the spec, on the same target; a SKIP result omits the entry. -/
+theorem c03_dict_stateful (p : Prims) (rec : Rec σ) (t : V) (sc : σ) :
+    ∀ (es : List (Spec × Spec)) (gs : List (V × (V → M V))) (acc : List (V × V)),
+      es.length = gs.length →
+      (∀ i (hi : i < es.length) (hj : i < gs.length), es[i].1.isComputedKey = false ∧
+          reify es[i].1 = some gs[i].1 ∧ EvalOn rec (mode sc) (argMode sc) es[i].2 gs[i].2) →
+      dictLoop p rec t sc es acc = dictRefM p t gs acc := by
+  intro es
+  induction es with
+  | nil => intro gs acc hl _; cases gs <;> simp_all [dictLoop, dictRefM]
+  | cons e rest ih =>
+    obtain ⟨field, sub⟩ := e
+    intro gs acc hl hall
+    cases gs with
+    | nil => simp at hl
+    | cons kg grest =>
+      obtain ⟨k, g⟩ := kg
+      have h0 := hall 0 (by simp) (by simp)
+      simp only [List.getElem_cons_zero] at h0
+      obtain ⟨hck, hre, hev⟩ := h0
+      have hrest := fun acc' => ih grest acc' (by simpa using hl) (by
+        intro i hi hj
+        have := hall (i + 1) (by simp; omega) (by simp; omega)
+        simpa using this)
+      apply M.ext; intro st
+      have hg := evalOn_apply hev t sc rfl rfl st
+      simp only [dictLoop, dictRefM, M.bind_apply, hck, hre]
+      rcases hr : rec sub t sc st with ⟨st1, r1⟩
+      rw [hr] at hg
+      cases r1 with
+      | error e => simp only [hg]
+      | ok vc =>
+        obtain ⟨v, c⟩ := vc
+        simp only [hg]
+        cases v <;> simp [hrest]
+
+/-- **A tuple / Pipe over effectful steps**: the steps run once each, in order, each on the result
+    of the previous one; SKIP keeps the target, STOP ends the chain — the later steps do not run.
+    (Every step is handed a scope with the owner's mode and argument flag.) -/
+theorem c03_chain_stateful [LawfulScope σ] (rec : Rec σ) (m : Mode) (a : Bool) :
+    ∀ (steps : List Spec) (gs : List (V → M V)) (t : V) (cur : σ) (last : Option σ),
+      mode cur = m → argMode cur = a →
+      steps.length = gs.length →
+      (∀ i (hi : i < steps.length) (hj : i < gs.length), EvalOn rec m a steps[i] gs[i]) →
+      tupleLoop rec steps t cur last = chainRefM gs t := by
+  intro steps
+  induction steps with
+  | nil => intro gs t cur last _ _ hl _; cases gs <;> simp_all [tupleLoop, chainRefM]
+  | cons s0 rest ih =>
+    intro gs t cur last hm ha hl hall
+    cases gs with
+    | nil => simp at hl
+    | cons g grest =>
+      have h0 := hall 0 (by simp) (by simp)
+      simp only [List.getElem_cons_zero] at h0
+      have hm' : mode (nextScope cur last) = m := by rw [nextScope_mode, hm]
+      have ha' : argMode (nextScope cur last) = a := by rw [nextScope_argMode, ha]
+      have hrest := fun t' l => ih grest t' (nextScope cur last) l hm' ha' (by simpa using hl) (by
+        intro i hi hj
+        have := hall (i + 1) (by simp; omega) (by simp; omega)
+        simpa using this)
+      apply M.ext; intro st
+      have hg := evalOn_apply h0 t (nextScope cur last) hm' ha' st
+      simp only [tupleLoop, chainRefM, M.bind_apply]
+      rcases hr : rec s0 t (nextScope cur last) st with ⟨st1, r1⟩
+      rw [hr] at hg
+      cases r1 with
+      | error e => simp only [hg]
+      | ok vc =>
+        obtain ⟨v, c⟩ := vc
+        simp only [hg]
+        cases v <;> simp [hrest, M.pure_apply]
+
+/-- **Coalesce over effectful alternatives**: the alternatives run in order, each once; one that
+    raises an exception in `skip_exc`, or yields a skipped value, is passed over *keeping the state
+    it left* (its calls stay in the log); any other exception propagates; the first non-skipped
+    success wins and no later alternative runs. -/
+theorem c03_coalesce_stateful (p : Prims) (rec : Rec σ) (t : V) (sc : σ) (sk : Skip) (se : List String) :
+    ∀ (subs : List Spec) (gs : List (V → M V)),
+      subs.length = gs.length →
+      (∀ i (hi : i < subs.length) (hj : i < gs.length), EvalOn rec (mode sc) (argMode sc) subs[i] gs[i]) →
+      coalesceLoop p rec t sc sk se subs = coalesceRefM p sk se gs t := by
+  intro subs
+  induction subs with
+  | nil => intro gs hl _; cases gs <;> simp_all [coalesceLoop, coalesceRefM]
+  | cons s rest ih =>
+    intro gs hl hall
+    cases gs with
+    | nil => simp at hl
+    | cons g grest =>
+      have h0 := hall 0 (by simp) (by simp)
+      simp only [List.getElem_cons_zero] at h0
+      have hrest := ih grest (by simpa using hl) (by
+        intro i hi hj
+        have := hall (i + 1) (by simp; omega) (by simp; omega)
+        simpa using this)
+      apply M.ext; intro st
+      have hg := evalOn_apply h0 t sc rfl rfl st
+      simp only [coalesceLoop, coalesceRefM, M.bind_apply, M.attempt]
+      rcases hr : rec s t sc st with ⟨st1, r1⟩
+      rw [hr] at hg
+      cases r1 with
+      | error e => simp only [hg, hrest]
+      | ok vc =>
+        obtain ⟨v, c⟩ := vc
+        simp only [hg, hrest]
+
+/-- the interpreter itself: in AUTO mode (not in argument position) a callable is an effectful
+    sub-spec — the call is logged, then Python's part runs on the current target -/
+theorem c03_callable_evalOn [LawfulScope σ] (p : Prims) (fuel : Nat) (n k : String) :
+    EvalOn (σ := σ) (interp p (fuel + 1)) .auto false (.fn n k) (fun t => callFn p n k [t] []) := by
+  intro t sc hm ha
+  simp only [interp, Spec.isSpecLike, Bool.false_eq_true, if_false, LawfulScope.argMode_child,
+    LawfulScope.mode_child, hm, ha, autoFn]
+  simp
+
+/-- at scope `sc` the evaluator logs `L t` and yields `f t` on sub-spec `s` (e.g. an instrumented callable) -/
+def LoggedOn (rec : Rec σ) (s : Spec) (f : V → V) (L : V → List Ev) (sc : σ) : Prop :=
+  ∀ t st, ∃ c, rec s t sc st = ({ st with log := st.log ++ L t }, .ok (f t, c))
+
+/-- **The call log of a list spec**: the sub-spec's log entries of the items, in the order of the
+    iteration, each item once, up to and including the first item that yields STOP — and the
+    value is `listRef`.  (Observation named by the property: order and count of the calls.) -/
+theorem c03_list_call_log (rec : Rec σ) (sub : Spec) (f : V → V) (L : V → List Ev) (sc : σ)
+    (h : LoggedOn rec sub f L sc) :
+    ∀ (items acc : List V) (st : St),
+      listLoop rec sub sc items acc st =
+        ({ st with log := st.log ++ (evaluatedItems f items).flatMap L }, .ok (acc ++ listRef f items)) := by
+  intro items
+  induction items with
+  | nil => intro acc st; simp [listLoop, listRef, evaluatedItems, M.pure_apply]
+  | cons x xs ih =>
+    intro acc st
+    obtain ⟨c, hc⟩ := h x st
+    simp only [listLoop, M.bind_apply, hc, listRef, evaluatedItems]
+    cases hf : f x <;> simp [ih, M.pure_apply, List.append_assoc]
+
+/-- the interpreter itself satisfies `LoggedOn` for an instrumented callable whose Python part
+    succeeds: in AUTO mode it logs one call with the current target and yields the function's value -/
+theorem c03_callable_loggedOn [LawfulScope σ] (p : Prims) (fuel : Nat) (n k : String) (f : V → V)
+    (hf : ∀ t, p.applyFn k [t] [] = .ok (f t)) (sc : σ) (hm : mode sc = .auto) (ha : argMode sc = false) :
+    LoggedOn (interp p (fuel + 1)) (.fn n k) f (fun t => [.call n [t]]) sc := by
+  intro t st
+  refine ⟨child sc, ?_⟩
+  simp only [interp, Spec.isSpecLike, Bool.false_eq_true, if_false, LawfulScope.argMode_child,
+    LawfulScope.mode_child, hm, ha, autoFn, callFn, M.bind_apply, M.logEv, M.lift, hf, M.pure_apply]
+
+/-- **Coalesce with `skip_exc=()`** passes over no exception: an error of an alternative
+    propagates (with the state it left) and the later alternatives are not evaluated. -/
+theorem c03_coalesce_no_skip_exc (p : Prims) (rec : Rec σ) (t : V) (sc : σ) (sk : Skip)
+    (s : Spec) (later : List Spec) (st st1 : St) (e : Err) (hs : rec s t sc st = (st1, .error e)) :
+    coalesceLoop p rec t sc sk [] (s :: later) st = (st1, .error e) := by
+  rw [c03_coalesce_skips p rec t sc sk [] s later st st1 e hs]
+  simp [caught]
+
+/-- **Coalesce with `skip=()`** (and without `skip`) skips no value: the first alternative that
+    does not raise wins, whatever it yields — `None`, `0`, `''` included. -/
+theorem c03_coalesce_skip_nothing (p : Prims) (rec : Rec σ) (t : V) (sc : σ) (se : List String)
+    (s : Spec) (later : List Spec) (st st1 : St) (v : V) (c : σ) (hs : rec s t sc st = (st1, .ok (v, c))) :
+    coalesceLoop p rec t sc (.anyOf []) se (s :: later) st = (st1, .ok (some v)) ∧
+    coalesceLoop p rec t sc .never se (s :: later) st = (st1, .ok (some v)) :=
+  ⟨c03_coalesce_first_wins p rec t sc _ se s later st st1 st1 v c hs rfl,
+   c03_coalesce_first_wins p rec t sc _ se s later st st1 st1 v c hs rfl⟩
+
 /-! ### non-vacuity -/
 example : listRef (fun v => match v with | .int 2 => .skip | .int 4 => .stop | v => v)
     [.int 1, .int 2, .int 3, .int 4, .int 5] = [.int 1, .int 3] := by rfl
@@ -228,5 +482,28 @@ example :
     chainRef [chainRef [stopper], wrap] (.int 1) = .list [.int 1] ∧
     chainRef [stopper, wrap] (.int 1) = .int 1 := by
   constructor <;> rfl
+
+/-- effectful sub-spec, concretely: `glom([1, 2, 3], [f])` with an instrumented `f` that returns STOP
+    on 2 — the interpreter's loop logs `f(1)`, `f(2)` (not `f(3)`) and yields `[1]` -/
+private def stopAt2 : Prims :=
+  { trivPrims with applyFn := fun _ args _ => match args with
+      | [.int 2] => .ok .stop
+      | [v] => .ok v
+      | _ => .error ⟨"TypeError"⟩ }
+
+example :
+    let root : Frames := [{ mode := some .auto, arg := some false }]
+    let out := listLoop (interp (σ := Frames) stopAt2 2) (.fn "f" "k") root [.int 1, .int 2, .int 3] [] {}
+    out.2 = .ok [.int 1] ∧ out.1.log.length = 2 := by
+  constructor <;> rfl
+
+example : evaluatedItems (fun v => match v with | .int 2 => .stop | v => v) [.int 1, .int 2, .int 3] =
+    [.int 1, .int 2] := by rfl
+
+-- chainRefM with an effectful step that raises: the later step does not run, the state is kept
+example :
+    let boom : V → M V := fun _ => do M.logEv (.call "boom" []); M.fail "ValueError"
+    let never : V → M V := fun v => do M.logEv (.call "never" []); pure v
+    ((chainRefM [boom, never] (.int 1) {}).1.log.length = 1) := by rfl
 
 end Glom.Props.C03
